@@ -1,6 +1,7 @@
 package main
 
 import (
+	"encoding/json"
 	"flag"
 	"fmt"
 	"os"
@@ -22,6 +23,7 @@ var rules = []*Rule{
 	{ID: "R11", Title: "COPY-LOOP: every record read is accounted for", Props: []string{"C01", "C05", "C07", "C11", "C12", "C17"}, Run: ruleR11},
 	{ID: "R12", Title: "EFFECT-CONFINEMENT: who can change a log file", Props: []string{"C19", "C20"}, Run: ruleR12},
 	{ID: "R15", Title: "FLOCK-PAIRING", Props: []string{"C19"}, Run: ruleR15},
+	{ID: "R14", Title: "NOTIFY: publish-then-set, probe-under-token", Props: []string{"C18"}, Run: ruleR14},
 	{ID: "R4", Title: "LOCK-ORDER: acyclic acquisition graph, no re-acquisition", Props: []string{"C08"}, Run: ruleR4},
 }
 
@@ -42,6 +44,7 @@ func main() {
 		list     = flag.Bool("list", false, "print every obligation")
 		replay   = flag.String("replay", "", "print the violation record(s) in a replay file")
 		onlyRule = flag.String("rule", "", "run only this rule (debug)")
+		describe = flag.Bool("describe", false, "print property -> rules as JSON")
 	)
 	flag.Parse()
 	code := 0
@@ -62,6 +65,20 @@ func main() {
 		}
 		if *outDir == "" {
 			*outDir = filepath.Join(*verifDir, "evidence")
+		}
+		if *describe {
+			m := map[string][]string{}
+			for _, r := range rules {
+				for _, pr := range r.Props {
+					m[pr] = append(m[pr], r.ID)
+				}
+			}
+			for k := range m {
+				sort.Slice(m[k], func(i, j int) bool { return ruleNum(m[k][i]) < ruleNum(m[k][j]) })
+			}
+			data, _ := json.MarshalIndent(m, "", " ")
+			fmt.Println(string(data))
+			return
 		}
 		if *replay != "" {
 			code = doReplayFile(*replay)
